@@ -406,7 +406,8 @@ def _fault_free_sync(world, ctl):
         raise Violation(
             'c12.sync.raised.%s' % type(err).__name__,
             '_synchronize did not complete on a cache state and '
-            'ZooKeeper state the node can be in: %r' % (err,))
+            'ZooKeeper state the node can be in: %s: %s' % (
+                type(err).__name__, ' '.join(str(err).split())[:300]))
 
 
 def _run_sync(case, stats):
@@ -578,6 +579,36 @@ def fixed_cases():
         ],
         'dotfiles': [], 'cuts': [400], 'flush': False,
     }
+    wide = {
+        'kind': 'sync', 'check_existing': False,
+        'instances': [
+            {'name': 'foo.web#0000000001', 'role': 'missing', 'placed': True,
+             'manifest': _man(1), 'pnode': True,
+             'pdata': _pd(None, 1578279999.25), 'file': None},
+            {'name': 'foo.api.v2#0000000002', 'role': 'missing',
+             'placed': True, 'pnode': True, 'pdata': _pd(0, 1e+16),
+             'file': None,
+             'manifest': _man(2.5e-05, {
+                 'environ': [{'name': 'BANNER',
+                              'value': 'launch \U0001F680 now'},
+                             {'name': 'CTRL', 'value': '\x01\x7f\x85\u2028'},
+                             {'name': 'NUM', 'value': '1e5'},
+                             {'name': 'T', 'value': '1:30'}],
+                 'args': ['yes', '~', ' lead', 'trail ', 'a: b', '#c', ''],
+                 'annotations': {'big': 2 ** 70, 'tiny': 5e-324,
+                                 'huge': 1.7976931348623157e+308,
+                                 'negzero': -0.0, 'nested': [[], {}, [{}]],
+                                 '': None, 'yes': True}})},
+            {'name': 'foo.db-1#0000000012', 'role': 'missing', 'placed': True,
+             'manifest': _man(3), 'pnode': True,
+             'pdata': _pd(1, 1578280000.0), 'file': None},
+            {'name': 'treadmld.web#0000000001', 'role': 'missing',
+             'placed': True, 'manifest': _man(4), 'pnode': True,
+             'pdata': _pd(None, None), 'file': None},
+        ],
+        'dotfiles': [],
+    }
     return [('aimed-sync-extra-missing-outdated', mixed),
+            ('aimed-sync-json-value-domain', wide),
             ('aimed-fault-replace-existing', replace_old),
             ('aimed-fault-create-new', create_new)]
